@@ -14,7 +14,8 @@ RULE = ("for each reference run (problem x configuration family: plain, bounded,
         "only LinAlgError); bounds exact and budget/counters exact on the faulted history; soln.x finite and equal to a recorded x; if a "
         "point completed before the fault has a finite objective then soln.obj is finite and (no averaging) <= the best of them; "
         "success flag => finite obj; a raised exception reaches the caller as the same object and no evaluation follows it. "
-        "Non-trivial/distinct = (reference configuration, k, kind); evidence lists fault positions by algorithm phase x kind")
+        "Non-trivial/distinct = (reference configuration, k, kind); evidence lists fault positions by algorithm phase x kind"
+        ' Second session: families regulariser x projections and print_progress=True.')
 ASSUMPTIONS = ["faults are injected at the objfun boundary by the recording wrapper (one residual component, index k mod m)",
                "finding D22 (shared with C10): success flag with a non-finite objective only when no point with a finite objective exists anywhere "
                "in the history",
